@@ -5,6 +5,7 @@
 #ifndef BPP_GRAPH_TREEGRAPHIMPL_H
 #define BPP_GRAPH_TREEGRAPHIMPL_H
 
+#include <algorithm>
 #include <iostream>
 #include <ostream>
 #include <string>
@@ -589,38 +590,35 @@ Graph::NodeId TreeGraphImpl<GraphImpl>::MRCA(const std::vector<Graph::NodeId>& n
   if (nbnodes == 1)
     return nodes[0];
 
-  // Forward counts
-  auto fathers = std::make_shared<std::map<Graph::NodeId, unsigned int>>();
-  auto sons = std::make_shared<std::map<Graph::NodeId, unsigned int>>();
-
-  for (auto nodeid:nodes)
+  // The ancestors of the first node, from itself up to the root.
+  // (Climbing from all nodes in lock step misses the ancestor when the
+  // nodes are at different depths.)
+  std::vector<Graph::NodeId> lineage;
+  for (Graph::NodeId node = nodes[0]; ; node = getFatherOfNode(node))
   {
-    (*sons)[nodeid] = 1;
+    lineage.push_back(node);
+    if (!hasFather(node))
+      break;
   }
 
-  while (sons->size() > 1)
+  // The MRCA is the highest point at which the lineage of another
+  // node joins this one.
+  size_t mrca = 0;
+  for (size_t i = 1; i < nbnodes; ++i)
   {
-    // From sons to fathers
-    for (auto son:(*sons))
+    Graph::NodeId node = nodes[i];
+    std::vector<Graph::NodeId>::const_iterator found = std::find(lineage.begin(), lineage.end(), node);
+    while (found == lineage.end())
     {
-      Graph::NodeId here = (!hasFather(son.first)) ? son.first : getFatherOfNode(son.first);
-
-      if (fathers->find(here) == fathers->end())
-        (*fathers)[here] = son.second;
-      else
-        (*fathers)[here] += son.second;
-
-      if ((*fathers)[here] == nbnodes)
-        return here;
+      if (!hasFather(node))
+        throw Exception("TreeGraphImpl::MRCA not found");
+      node = getFatherOfNode(node);
+      found = std::find(lineage.begin(), lineage.end(), node);
     }
-
-    auto temp = sons;
-    sons = fathers;
-    fathers = temp;
-    fathers->clear();
+    mrca = std::max(mrca, static_cast<size_t>(found - lineage.begin()));
   }
 
-  throw Exception("TreeGraphImpl::MRCA not found");
+  return lineage[mrca];
 }
 }
 #endif // BPP_GRAPH_TREEGRAPHIMPL_H
